@@ -850,6 +850,94 @@ def r12_15(ctx):
     ctx.floor(rid, n, 2, "stores into a linear-form abstract store")
 
 
+def _fp_format_tables(repo):
+    """(ordinal of each Floating_Point_Format enumerator, mantissa bits of each format), read from the declarations
+    in globals_types.hh and Float_defs.hh."""
+    src = open(os.path.join(repo, "src", "globals_types.hh")).read()
+    m = re.search(r"enum\s+Floating_Point_Format\s*\{(.*?)\};", src, re.S)
+    if not m:
+        raise F.AnalysisBroken("R12.16: enum Floating_Point_Format not found in globals_types.hh")
+    body = re.sub(r"//[^\n]*", "", m.group(1))
+    names = [x.strip() for x in body.split(",") if x.strip()]
+    if any("=" in x for x in names):
+        raise F.AnalysisBroken("R12.16: Floating_Point_Format has explicit enumerator values: the rule does not know this form")
+    ordinal = {n: i for i, n in enumerate(names)}
+    fd = open(os.path.join(repo, "src", "Float_defs.hh")).read()
+    bits = {}
+    struct_bits = {}
+    for sm in re.finditer(r"struct\s+(float_\w+)\s*\{(.*?)\n\};", fd, re.S):
+        b = re.search(r"MANTISSA_BITS\s*=\s*(\d+)", sm.group(2))
+        fm = re.search(r"floating_point_format\s*=\s*(\w+)", sm.group(2))
+        fmt = fm.group(1) if fm else sm.group(1)[len("float_"):].upper()     # float_ibm_double has no member: by name
+        if b:
+            struct_bits[sm.group(1)] = int(b.group(1))
+        if b and fmt in ordinal:
+            bits[fmt] = int(b.group(1))
+    return ordinal, bits, struct_bits
+
+
+def r12_16(ctx):
+    from pplv import absint
+    rid = "R12.16"
+    ctx.rule(rid, "is_less_precise_than orders the formats by precision: linearize() adds no rounding error to a cast when the destination is NOT less precise than the source, so the answer must be true exactly when the first format has fewer mantissa bits than the second. The function (and any helper it calls) is interpreted on all pairs of Floating_Point_Format enumerators, with the enumerators' ordinals read from the enum declaration and the mantissa sizes from the MANTISSA_BITS / floating_point_format members of the float_* structs")
+    ordinal, bits, struct_bits = _fp_format_tables(ctx.repo)
+    ctx.require(rid, len(ordinal) >= 7 and set(bits) <= set(ordinal) and len(bits) >= 7, "format tables incomplete: %d enumerators, %d structs with a format" % (len(ordinal), len(bits)))
+    fx = ctx.extract([F.driver_unit("all_headers.cc", file_re=r"Float_inlines\.hh")])
+    fns = {}
+    for f in fx.functions:
+        if f.cfg and f.file.endswith("Float_inlines.hh"):
+            fns.setdefault(f.name, f)
+    f0 = fns.get("is_less_precise_than")
+    ctx.require(rid, f0 is not None, "is_less_precise_than not found in Float_inlines.hh")
+
+    def interpret(f, argvals, depth=0):
+        if depth > 3:
+            raise absint.Unknown("recursion")
+        pv = {p["n"]: v for p, v in zip(f.params, argvals)}
+
+        def atom(e, env, it):
+            t = f.text(e).strip()
+            if e["k"] == "ref":
+                if t in pv:
+                    return {pv[t]}
+                if t.split("::")[-1] in ordinal:
+                    return {ordinal[t.split("::")[-1]]}
+                m_ = re.match(r"^(?:\w+::)*(float_\w+)::MANTISSA_BITS$", e.get("qn") or t)
+                if m_ and m_.group(1) in struct_bits:
+                    return {struct_bits[m_.group(1)]}
+                return None
+            if e["k"] in ("call", "mcall"):
+                cn = f.call_name(e).lstrip("~")
+                if cn in fns and cn != f.name:
+                    vals = [it.ev(a, env) for a in f.call_args(e)]
+                    if all(len(v) == 1 for v in vals):
+                        return interpret(fns[cn], [next(iter(v)) for v in vals], depth + 1)
+            return None
+        it = absint.CfgInterp(f, atom)
+        out = set()
+        for ret, env, ev_ in it.run({}):
+            out |= it.ev(ret["c"][0], env)
+        return out
+    n = 0
+    bad = []
+    for a in sorted(bits, key=lambda x: ordinal[x]):
+        for b in sorted(bits, key=lambda x: ordinal[x]):
+            try:
+                got = interpret(f0, [ordinal[a], ordinal[b]])
+            except absint.Unknown as ex:
+                raise F.AnalysisBroken("R12.16: is_less_precise_than: %s — the interpretation does not know this form" % ex)
+            n += 1
+            want = bits[a] < bits[b]
+            if {bool(g) for g in got} != {want}:
+                bad.append((a, b, got, want))
+    if bad:
+        for a, b, got, want in bad:
+            ctx.violation(rid, "is_less_precise_than(%s, %s)" % (a, b), f0.where(), "the answer is %s, but %s has %d mantissa bits and %s has %d" % (" or ".join(sorted(str(bool(g)).lower() for g in got)), a, bits[a], b, bits[b]))
+    else:
+        ctx.ok(rid, "is_less_precise_than on %d pairs of formats" % n, f0.where())
+    ctx.floor(rid, n, 49, "pairs of formats")
+
+
 def run(ctx):
     ctx.explanation = ("C12 side discipline of the interval layer on the template patterns of Interval_* and Boundary_defs.hh: consistent (side, value, info) triples, "
                        "direction derived from the side of the bound written, results combined; decides the discipline, not the sign case analysis of mul/div or linearisation")
@@ -871,6 +959,7 @@ def run(ctx):
     r12_13(ctx, fx)
     r12_14(ctx, fx)
     r12_15(ctx)
+    r12_16(ctx)
     from rules import idioms
     ctx.rule("R12.5", "copies agree: the per-format arms of the switches of the floating-point layer (compute_absolute_error caches one result per analysed format and reads the traits of that format) are copies of one another; in each arm the identifiers repeat exactly as in its siblings — the slot tested is the slot returned and the slot filled, and the three traits come from one struct")
     fxf = ctx.extract([F.driver_unit("all_headers.cc", file_re=r"(Float_(templates|inlines)|linearize|Linear_Form_templates|Interval_templates)\.hh")])
